@@ -547,7 +547,21 @@ class MessageManager(interfaces.TokenInterface, interfaces.MessageManager):
 
         self._store_response_for_duplicates(message)
 
-        self._send_via_transport(message)
+        try:
+            self._send_via_transport(message)
+        except Exception:
+            # The message never made it to the wire (eg. because it can not be
+            # serialized). Retransmitting or repeating it would fail the same
+            # way, and a dangling exchange would hold back everything else
+            # that is to be sent to that remote.
+            key = (message.remote, message.mid)
+            if self._recent_messages.get(key) is message:
+                self._recent_messages[key] = None
+            if message.mtype is CON and key in self._active_exchanges:
+                _, next_retransmission = self._active_exchanges.pop(key)
+                next_retransmission.cancel()
+                self._continue_backlog(message.remote)
+            raise
 
     def _send_via_transport(self, message):
         """Put the message on the wire"""
